@@ -4,7 +4,7 @@ from geom import observe, call, build
 from props import common
 
 POLYH = ["tet", "tet2", "cube", "box", "obl", "prism", "pyr", "octa", "wedge", "pprism", "ppyr", "hprism"]
-POLYG = ["tri", "triObl", "sq", "rectObl", "trap", "par", "pent", "pentObl", "hex", "hexObl"]
+POLYG = ["tri", "triObl", "sq", "rectObl", "trap", "par", "pent", "pentObl", "hex", "hexObl", "stripH", "stripV", "triUp", "triDown"]
 KC = ["Line", "HalfLine", "Segment", "Plane"]
 KX = ["Point", "Segment", "HalfLine", "Line", "Polygon"]
 INVS = ["SubsetSound", "SubsetWitness", "SubsetIffInter", "Emit"]
